@@ -5,6 +5,8 @@
 EXTENDS MC_Doc
 C01_Names == { <<"a">>, <<"b">>, <<"a", "SP", "HY", "SP", "b">>, <<"SP", "b", "SP">> }
 C01_Names3 == { <<"a">>, <<"b">>, <<"SP", "a", "SP", "AS", "b">> }
+\* names that are paths or path-special (for the builds' agreement, C17: joined paths that coincide, '.' and '..' below a root)
+C01_NamesPath == { <<"a">>, <<"b">>, <<"a", "SL", "b">>, <<"DOT">>, <<"DOT", "DOT">> }
 C01_Sigma == { [unit |-> <<"SP", "SP">>, heading |-> FALSE, crlf |-> FALSE, bullets |-> {"HY"}, blanks |-> FALSE] }
 C01_Blank == { <<>> }
 C01_Pool  == { <<>> }
